@@ -403,7 +403,7 @@ def transcripts(ctx, rep):
             rep.violation("transcript", fn, "anchor", "function not found")
             continue
         b = util.bexpr(ctx, se, se.ret)
-        rep.check(b == want, "transcript", fn, "sha1", "%s: %s" % (why, show_b(b)), "%s: expected %s, found %s" % (why, show_b(want), show_b(b)), se.body.loc())
+        rep.check(b == util.cb(want), "transcript", fn, "sha1", "%s: %s" % (why, show_b(b)), "%s: expected %s, found %s" % (why, show_b(want), show_b(b)), se.body.loc())
     # xor hash: H(N_le) xor H([g]) element-wise over all 20 positions
     fn = "srp_internal::calculate_xor_hash"
     se = ctx.wrap.run(fn)
@@ -414,8 +414,8 @@ def transcripts(ctx, rep):
     hs = [(bb, util.bexpr(ctx, se, i["term"]), strip(i["term"])) for bb, i in se.term_info.items() if i.get("k") == "call" and i["name"] in util.DIGEST_FINAL]
     want_n = ("H", (P(1),))
     want_g = ("H", (("arr", (P(2),)),))
-    hn = [h for h in hs if h[1] == want_n]
-    hg = [h for h in hs if h[1] == want_g]
+    hn = [h for h in hs if h[1] == util.cb(want_n)]
+    hg = [h for h in hs if h[1] == util.cb(want_g)]
     loops = util.for_loops(ctx, se)
     good = False
     why = "digests %s" % [show_b(h[1]) for h in hs]
